@@ -3,6 +3,7 @@
 package h_c23
 
 import (
+	"context"
 	"encoding/json"
 	"fmt"
 	"os"
@@ -69,7 +70,29 @@ var c23Outcomes = []string{
 	// the server answers a non-server-streaming RPC with TWO response messages
 	// (HEADERS, DATA(msg), DATA(msg)), without / with trailers after them
 	"unary2Resp", "unary2RespTrailers",
+	// a RETRY attempt (by policy after trailers-only UNAVAILABLE, or transparent after
+	// REFUSED_STREAM) whose pick succeeds but which then fails while the buffered ops are
+	// replayed (its NewStream fails) or right after the replay
+	"retry2CredsFail", "tretry2CredsFail", "retry2HdrList", "retry2QuotaDeadline", "retry2ConnClose", "retry2RST",
 }
+
+// c23FlakyCreds: call-level per-RPC credentials that succeed on the first
+// GetRequestMetadata call and fail (UNAUTHENTICATED, not retryable) from the second on.
+type c23FlakyCreds struct {
+	mu    sync.Mutex
+	calls int
+}
+
+func (c *c23FlakyCreds) GetRequestMetadata(context.Context, ...string) (map[string]string, error) {
+	c.mu.Lock()
+	defer c.mu.Unlock()
+	c.calls++
+	if c.calls >= 2 {
+		return nil, status.Error(codes.Unauthenticated, "scripted creds failure on the retry attempt")
+	}
+	return map[string]string{"x-c23": "v"}, nil
+}
+func (*c23FlakyCreds) RequireTransportSecurity() bool { return false }
 
 // c23KeySecondResponse is the single canonical key of the known finding "a
 // second response message on a non-server-streaming RPC makes Invoke /
@@ -120,6 +143,14 @@ func c23Expected(term string) c23Expect {
 		return c23Expect{[]codes.Code{codes.Canceled, codes.Unavailable}, []codes.Code{codes.Canceled, codes.Unavailable}, 1}
 	case "nsHdrList", "unary2Resp", "unary2RespTrailers":
 		return c23Expect{one(codes.Internal), one(codes.Internal), 1}
+	case "retry2CredsFail", "tretry2CredsFail":
+		return c23Expect{one(codes.Unauthenticated), one(codes.Unauthenticated), 2}
+	case "retry2HdrList":
+		return c23Expect{one(codes.Internal), one(codes.Internal), 2}
+	case "retry2QuotaDeadline":
+		return c23Expect{one(codes.DeadlineExceeded), one(codes.DeadlineExceeded), 2}
+	case "retry2ConnClose", "retry2RST":
+		return c23Expect{one(codes.Unavailable), one(codes.Unavailable), 2}
 	}
 	panic("c23: unknown term " + term)
 }
@@ -235,17 +266,24 @@ func c23RunInBubble(t *testing.T, c c23Case, res *c23Result) {
 	}
 
 	method := "/n/m"
-	if strings.HasPrefix(outcome, "policyRetry") {
+	if strings.HasPrefix(outcome, "policyRetry") || strings.HasPrefix(outcome, "retry2") {
 		method = "/s/m"
 	}
 	timeout := time.Duration(0)
-	if c.Term == "deadline" || (isReady && outcome == "deadlineMid") {
+	if c.Term == "deadline" || (isReady && (outcome == "deadlineMid" || outcome == "retry2QuotaDeadline")) {
 		timeout = time.Second
 	}
 	ctx, cancel := w.ctx(timeout)
 	var opts []grpc.CallOption
 	if c.WFR {
 		opts = append(opts, grpc.WaitForReady(true))
+	}
+	nsend := 1
+	if isReady && strings.Contains(outcome, "retry2") {
+		nsend = 2 // two buffered sends to replay
+		if strings.HasSuffix(outcome, "CredsFail") {
+			opts = append(opts, grpc.PerRPCCredentials(&c23FlakyCreds{}))
+		}
 	}
 
 	publishTerm := func() *c23Picker {
@@ -282,7 +320,7 @@ func c23RunInBubble(t *testing.T, c c23Case, res *c23Result) {
 		// client-streaming, non-server-streaming RPC used CloseAndRecv style: one RecvMsg
 		rpc = w.startStreamDesc(ctx, c23ClientStreamDesc, 1, method, []byte("req"), 1, opts...)
 	} else {
-		rpc = w.startStream(ctx, method, []byte("req"), 1, opts...)
+		rpc = w.startStream(ctx, method, []byte("req"), nsend, opts...)
 	}
 	synctest.Wait()
 
@@ -536,6 +574,45 @@ func c23ReadyFlow(w *c23World, outcome string, rpc *c23RPC, cancel func(), res *
 			s.Peer.WriteData(s.ID, false, wire.GrpcMsg(false, []byte("second")))
 			if outcome == "unary2RespTrailers" {
 				s.Peer.WriteHeaders(s.ID, [][2]string{{"grpc-status", "0"}}, true)
+			}
+		}
+	case "retry2CredsFail", "retry2HdrList", "retry2QuotaDeadline", "retry2ConnClose", "retry2RST", "tretry2CredsFail":
+		s, ok := need(false)
+		if !ok {
+			break
+		}
+		// settings changes that make the NEXT attempt's NewStream fail are sent first
+		switch outcome {
+		case "retry2HdrList":
+			s.Peer.WriteSettings(http2.Setting{ID: http2.SettingMaxHeaderListSize, Val: 16})
+		case "retry2QuotaDeadline":
+			s.Peer.WriteSettings(http2.Setting{ID: http2.SettingMaxConcurrentStreams, Val: 0})
+		}
+		if outcome == "tretry2CredsFail" {
+			s.Peer.WriteRST(s.ID, http2.ErrCodeRefusedStream) // transparent retry
+		} else {
+			s.trailersOnly(int(codes.Unavailable), pushback(50)) // retry by policy after 50 ms
+			synctest.Wait()
+			time.Sleep(50 * time.Millisecond)
+		}
+		synctest.Wait()
+		switch outcome {
+		case "retry2ConnClose":
+			if s2, ok := need(true); ok {
+				s2.Peer.Close()
+			}
+		case "retry2RST":
+			if s2, ok := need(true); ok {
+				s2.Peer.WriteRST(s2.ID, http2.ErrCodeRefusedStream)
+			}
+		case "retry2QuotaDeadline":
+			if ss := w.newStreams(); len(ss) != 0 && res.Engine == "" {
+				res.Engine = "flow retry2QuotaDeadline: the retry attempt reached the wire although MAX_CONCURRENT_STREAMS=0"
+			}
+			time.Sleep(2 * time.Second)
+		default:
+			if ss := w.newStreams(); len(ss) != 0 && res.Engine == "" {
+				res.Engine = "flow " + outcome + ": the retry attempt reached the wire although its NewStream had to fail"
 			}
 		}
 	case "nsHdrList":
